@@ -63,13 +63,29 @@ func Index(json any) any {
 
 	var locationIndex = createLocationIndex(&nodeIndex, &classIndex)
 
+	// A source map holds the entry of the node it belongs to and the entries of that node's properties, whose
+	// element is the property IRI. A property IRI can be the id of another node (the use of a custom domain
+	// property is written as a property named after its declaration): such an entry says where the property
+	// is used, not where that other node is.
+	sourceMapOwner := make(map[string]string)
+	for _, nn := range nodes {
+		n := nn.(types.ObjectMap)
+		sources := n["http://a.ml/vocabularies/document-source-maps#sources"]
+		handleSingleOrMultipleNodes(&sources, func(sourceMapRef *types.ObjectMap) {
+			if sourceMapId, ok := (*sourceMapRef)["@id"].(string); ok {
+				sourceMapOwner[sourceMapId] = n["@id"].(string)
+			}
+		})
+	}
+
 	// Build lexical index
 	lexicalIndex := make(types.ObjectMap)
 	for _, sourceMapId := range classIndex["http://a.ml/vocabularies/document-source-maps#SourceMap"] {
 		sourceMap := nodeIndex[sourceMapId].(types.ObjectMap)
+		owner, hasOwner := sourceMapOwner[sourceMapId]
 		lexicalContainer := sourceMap["http://a.ml/vocabularies/document-source-maps#lexical"] // can be map or array of maps
 		handleSingleOrMultipleNodes(&lexicalContainer, func(node *types.ObjectMap) {
-			addLexicalEntryFrom(node, &nodeIndex, &lexicalIndex, locationIndex)
+			addLexicalEntryFrom(node, &nodeIndex, &lexicalIndex, locationIndex, owner, hasOwner)
 		})
 	}
 
@@ -80,7 +96,7 @@ func Index(json any) any {
 	}
 }
 
-func addLexicalEntryFrom(node, nodeIndex, lexicalIndex *types.ObjectMap, locIndex *LocationIndex) {
+func addLexicalEntryFrom(node, nodeIndex, lexicalIndex *types.ObjectMap, locIndex *LocationIndex, owner string, hasOwner bool) {
 	lexicalEntry := (*nodeIndex)[(*node)["@id"].(string)].(types.ObjectMap)
 	id := lexicalEntry["http://a.ml/vocabularies/document-source-maps#element"].(string)
 	value := lexicalEntry["http://a.ml/vocabularies/document-source-maps#value"]
@@ -92,6 +108,9 @@ func addLexicalEntryFrom(node, nodeIndex, lexicalIndex *types.ObjectMap, locInde
 	Cannot index property lexical info (property URI -> lexical) because property URIs are not unique and will
 	get overwritten by each node
 	*/
+	if hasOwner && id != owner {
+		return // the entry of a property of the owner
+	}
 	if _, ok := (*nodeIndex)[id]; ok {
 		(*lexicalIndex)[id] = types.ObjectMap{
 			"range": value,
